@@ -186,6 +186,7 @@ impl Ctx {
             Stall::Us50 => rt::sleep_us(50),
             Stall::Us500 => rt::sleep_us(500),
             Stall::Ms2 => rt::sleep_us(2000),
+            Stall::Ms(ms) => rt::sleep_us(ms as u64 * 1000),
         }
     }
     pub fn gate(&self, g: GateId) -> &Gate {
